@@ -95,6 +95,8 @@ class Interp:
 
     # ------------------------------------------------------------------ path state
     def reset_path(self):
+        self.held = {}          # lock guards currently alive on this path: gid -> name of the shared object (None = local)
+        self.guard_seq = 0
         self.store = {}
         self.next_addr = 0
         self.pc = []
@@ -384,6 +386,9 @@ class Interp:
                 v = self.exec_block(fd.node['body'])
             except ReturnEx as e:
                 v = e.value
+            if self.held:
+                for sc in fr.scopes:
+                    self.drop_scope(sc, v)
             if fd.node['ret']:
                 v = self.coerce(v, fd.node['ret'])
             return v
@@ -432,6 +437,7 @@ class Interp:
     # ------------------------------------------------------------------ blocks / statements
     def exec_block(self, blk):
         self.frame.scopes.append({})
+        dropped = False
         try:
             v = UNIT
             stmts = blk['stmts']
@@ -443,9 +449,24 @@ class Interp:
                     v = UNIT
                 elif st['k'] != 'ExprStmt':
                     v = UNIT
+            if self.held:
+                self.drop_scope(self.frame.scopes[-1], v)
+                dropped = True
             return v
+        except (ReturnEx, BreakEx, ContinueEx) as ex:
+            if self.held and not dropped:
+                self.drop_scope(self.frame.scopes[-1], getattr(ex, 'value', None))
+            raise
         finally:
             self.frame.scopes.pop()
+
+    def drop_scope(self, scope, moved_out=None):
+        """Lock guards owned by variables of a scope that ends are released (unless the guard is the value moved out)."""
+        keep = moved_out.get('gid') if isinstance(moved_out, Opaque) and moved_out.tag == 'Guard' else None
+        for n, a in scope.items():
+            v = self.store.get(a)
+            if isinstance(v, Opaque) and v.tag == 'Guard' and v.get('gid') in self.held and v.get('gid') != keep:
+                self.effect('unlock', name=self.held.pop(v.get('gid')), gid=v.get('gid'))
 
     def _contains_skip_target(self, node):
         return self.skipping in self._desc_ids(node)
